@@ -3,6 +3,7 @@ import ShexerModel.Model.Ctor
 import ShexerModel.Model.Shacl
 import ShexerModel.Model.Targets
 import ShexerModel.Model.Text
+import ShexerModel.Model.MinIri
 import ShexerModel.Spec.Counts
 import ShexerModel.Spec.ShExSem
 open Shexer
@@ -129,6 +130,19 @@ def runCase (st : DState) (what id : String) : List String :=
             "S\t" ++ (Text.tuneToken ns s.prop).render ++ "\t" ++
               "|".intercalate (s.types.map fun ty =>
                 if s.prop == st.cfg.instProp then "[" ++ (Text.tuneToken ns ty).render ++ "]" else (Text.tuneToken ns ty).render)
+    | "miniri" =>
+      -- per final shape: stem, shape example, and for every statement the index (in the document) of the triple
+      -- whose value is the constraint example
+      let inst := Tracker.track st.cfg g
+      let vis := (g.zipIdx).filter fun (t, _) => Profiler.passesFilter st.cfg t
+      (Shexer.run st.cfg g).flatMap fun sh =>
+        ("MI\t" ++ sh.name ++ "\t" ++ (MinIri.stem inst sh.classUri).getD "-" ++ "\t" ++ (MinIri.shapeExample inst sh.classUri).getD "-") ::
+        sh.stmts.map fun s =>
+          let hit := if s.inverse then
+              vis.find? fun (t, _) => t.p == s.prop && t.o.isNode && ((Dict.get? inst t.o.key).getD []).contains sh.classUri
+            else
+              vis.find? fun (t, _) => t.p == s.prop && t.s.isNode && ((Dict.get? inst t.s.key).getD []).contains sh.classUri
+          "CE\t" ++ (if s.inverse then "I" else "D") ++ "\t" ++ s.prop ++ "\t" ++ (match hit with | some (_, i) => toString i | none => "-")
     | "fixedlines" =>
       st.smItems.toList.map fun (rs, _, _) =>
         match Targets.splitFixedLine rs with
